@@ -1,6 +1,8 @@
 package rules
 
 import (
+	"go/types"
+	"go/ast"
 	"fmt"
 	"go/token"
 	"strings"
@@ -206,4 +208,108 @@ func (c *Ctx) checkComplementShape(rule string) {
 	L.Check(okFill && okScan && okEmit, rule, r.label, "membership map + full scan", c.P.Pos(fn.Pos()), "every requested site is recorded; columns 0..L-1 are scanned once; a column is emitted iff its lookup fails",
 		fmt.Sprintf("the complement is not computed by membership (every element recorded: %v, scan of 0..L-1: %v, emitted on failed lookup: %v): an unsorted or repeated list gives a wrong complement", okFill, okScan, okEmit))
 	L.Floor(rule, 1, "one function")
+}
+
+// lookupTableOf: a dispatch written as a table instead of a switch. In fd an expression G[k]
+// indexes a package-level variable G of the same package whose initialiser is a composite literal
+// `Key: Value` with identifier (or selector) keys and values; returns key text -> value text, and
+// whether a key that is not in the table is rejected (the lookup is of the comma-ok form and a
+// branch on the negated flag returns).
+func (c *Ctx) lookupTableOf(rel string, fd *ast.FuncDecl) (map[string]string, bool) {
+	pk := c.P.Pkg(rel)
+	if pk == nil || fd == nil || fd.Body == nil {
+		return nil, false
+	}
+	info := pk.TypesInfo
+	table := map[string]string{}
+	rejects := false
+	ast.Inspect(fd.Body, func(n ast.Node) bool {
+		ie, ok := n.(*ast.IndexExpr)
+		if !ok {
+			return true
+		}
+		id, ok := ie.X.(*ast.Ident)
+		if !ok {
+			return true
+		}
+		v, ok := info.Uses[id].(*types.Var)
+		if !ok || v.Parent() != v.Pkg().Scope() {
+			return true
+		}
+		// the declaration of G
+		for _, f := range pk.Syntax {
+			for _, d := range f.Decls {
+				gd, ok := d.(*ast.GenDecl)
+				if !ok {
+					continue
+				}
+				for _, sp := range gd.Specs {
+					vs, ok := sp.(*ast.ValueSpec)
+					if !ok {
+						continue
+					}
+					for i, nm := range vs.Names {
+						if info.Defs[nm] != types.Object(v) || i >= len(vs.Values) {
+							continue
+						}
+						cl, ok := vs.Values[i].(*ast.CompositeLit)
+						if !ok {
+							continue
+						}
+						for _, el := range cl.Elts {
+							kv, ok := el.(*ast.KeyValueExpr)
+							if !ok {
+								continue
+							}
+							table[types.ExprString(kv.Key)] = types.ExprString(kv.Value)
+						}
+					}
+				}
+			}
+		}
+		return true
+	})
+	if len(table) == 0 {
+		return nil, false
+	}
+	// comma-ok lookup whose flag, negated, guards a return
+	okObjs := map[types.Object]bool{}
+	ast.Inspect(fd.Body, func(n ast.Node) bool {
+		as, ok := n.(*ast.AssignStmt)
+		if !ok || len(as.Lhs) != 2 || len(as.Rhs) != 1 {
+			return true
+		}
+		if _, isIdx := as.Rhs[0].(*ast.IndexExpr); !isIdx {
+			return true
+		}
+		if id, ok := as.Lhs[1].(*ast.Ident); ok {
+			if o := info.Defs[id]; o != nil {
+				okObjs[o] = true
+			} else if o := info.Uses[id]; o != nil {
+				okObjs[o] = true
+			}
+		}
+		return true
+	})
+	ast.Inspect(fd.Body, func(n ast.Node) bool {
+		ifs, ok := n.(*ast.IfStmt)
+		if !ok {
+			return true
+		}
+		ue, ok := ifs.Cond.(*ast.UnaryExpr)
+		if !ok || ue.Op != token.NOT {
+			return true
+		}
+		id, ok := ue.X.(*ast.Ident)
+		if !ok || !okObjs[info.Uses[id]] {
+			return true
+		}
+		for _, st := range ifs.Body.List {
+			if _, isRet := st.(*ast.ReturnStmt); isRet {
+				rejects = true
+			}
+		}
+		return true
+	})
+	return table, rejects
 }
